@@ -14,6 +14,11 @@
 (*            written record has lapsed.  While an end is being processed, or a bridge exists     *)
 (*            whose record is not written yet, nothing is demanded.                               *)
 (*                                                                                              *)
+(* Arrive events are target connections driven through the session layer of a node other than   *)
+(* the source node: the same two demands on its decision (forwarded to the source node while the   *)
+(* tunnel waits - what = refused-arrival | wrongnode-arrival; not forwarded once the id is gone).  *)
+(* A Remove may carry its cause (why = shutdown: the source node's SessionManager was closed).     *)
+(*                                                                                              *)
 (* Registration and removal are logged either as single events (Register / Remove: RoutingTable  *)
 (* API level) or as the call-site steps the driver observed: Create (bridge in the map, the       *)
 (* record's Set issued), Set (the Set landed), TunnelEnd (bridge closed), Removed (the           *)
@@ -78,7 +83,7 @@ TrRemoved == /\ Is("Removed") /\ Ev.t \in Tunnels
 
 TrRemove == /\ Is("Remove") /\ Ev.t \in Tunnels
             /\ br' = [br EXCEPT ![Ev.t] = NoBridge]
-            /\ why' = [why EXCEPT ![Ev.t] = "removed"]
+            /\ why' = [why EXCEPT ![Ev.t] = IF Has("why") THEN Ev.why ELSE "removed"]
             /\ fl' = [fl EXCEPT ![Ev.t] = FALSE] /\ rp' = [rp EXCEPT ![Ev.t] = FALSE]
             /\ Step /\ UNCHANGED <<viol, be>>
 
@@ -105,10 +110,23 @@ TrLookup == /\ Is("Lookup") /\ Ev.t \in Tunnels
             /\ viol' = viol \cup Bad(Ev)
             /\ Step /\ UNCHANGED <<be, br, why, fl, rp>>
 
+ArriveBad(e) ==
+  LET t == e.t IN
+  IF Waiting(t) /\ br[t].node # e.m
+  THEN LET what == IF e.r # "forward" THEN "refused-arrival" ELSE IF e.node # br[t].node THEN "wrongnode-arrival" ELSE "ok"
+       IN IF what = "ok" THEN {} ELSE {V("Resolve", be \o ":" \o what \o ":" \o br[t].cls)}
+  ELSE IF (Settled(t) \/ Lapsed(t)) /\ e.r = "forward" THEN {V("Gone", be \o ":" \o why[t] \o ":forwarded")} ELSE {}
+
+TrArrive == /\ Is("Arrive") /\ Ev.t \in Tunnels
+            /\ viol' = viol \cup ArriveBad(Ev)
+            /\ Step /\ UNCHANGED <<be, br, why, fl, rp>>
+
+TrTargetGone == Is("TargetGone") /\ Step /\ UNCHANGED <<viol, be, br, why, fl, rp>>
+
 TrEnd == /\ Is("End") /\ EmitVerdict
          /\ l' = l + 1 /\ viol' = {} /\ be' = "?" /\ br' = [t \in Tunnels |-> NoBridge] /\ why' = [t \in Tunnels |-> "never"]
          /\ fl' = None /\ rp' = None
 
-Next == TrCfg \/ TrAnnounce \/ TrRegister \/ TrCreate \/ TrSet \/ TrTunnelEnd \/ TrRemoved \/ TrRemove \/ TrTick \/ TrLookup \/ TrEnd
+Next == TrArrive \/ TrTargetGone \/ TrCfg \/ TrAnnounce \/ TrRegister \/ TrCreate \/ TrSet \/ TrTunnelEnd \/ TrRemoved \/ TrRemove \/ TrTick \/ TrLookup \/ TrEnd
 Spec == Init /\ [][Next]_vars
 =============================================================================
